@@ -1,8 +1,8 @@
 package types
 
 import (
+	"fmt"
 	"math/big"
-	"strconv"
 )
 
 const (
@@ -24,23 +24,20 @@ func ConvertUndDenomination(amount string, from string, to string) (string, erro
 
 	switch from {
 	case FundDenom: // from und to nund
-		fromAmt, err := strconv.ParseFloat(amount, 64)
-		if err != nil {
-			return "", err
+		fromAmt, ok := new(big.Rat).SetString(amount)
+		if !ok {
+			return "", fmt.Errorf("invalid amount: %s", amount)
 		}
-		fromAmtBf := new(big.Float).SetFloat64(fromAmt)
-		res := fromAmtBf.Mul(fromAmtBf, big.NewFloat(UndPow))
-		result := new(big.Int)
-		res.Int(result)
+		res := fromAmt.Mul(fromAmt, big.NewRat(UndPow, 1))
+		result := new(big.Int).Quo(res.Num(), res.Denom())
 		return result.String() + to, nil
 	case NundDenom: // from nund to fund
-		fromAmt, err := strconv.ParseFloat(amount, 64)
-		if err != nil {
-			return "", err
+		fromAmt, ok := new(big.Rat).SetString(amount)
+		if !ok {
+			return "", fmt.Errorf("invalid amount: %s", amount)
 		}
-		fromAmtBf := new(big.Float).SetFloat64(fromAmt)
-		res := fromAmtBf.Mul(fromAmtBf, big.NewFloat(NundPow))
-		return res.Text('f', 9) + to, nil
+		res := fromAmt.Mul(fromAmt, big.NewRat(1, UndPow))
+		return res.FloatString(9) + to, nil
 	}
 
 	return "", nil
